@@ -16,6 +16,9 @@ import (
 // the DB's metrics until no flush or compaction is in progress.
 var InBubble bool
 
+// DebugTrace, if set, collects the event log of the next RunPlan (debugging aid).
+var DebugTrace *[]string
+
 // Result is what a plan execution reports besides a violation.
 type Result struct {
 	C map[string]int
@@ -36,7 +39,16 @@ func RunPlan(p Plan, finish func(r *Runner) error) (res Result, err error) {
 			cr = &crasher{cp: p.Crash, mem: mem}
 			fs = errorfs.Wrap(mem, errorfs.InjectorFunc(cr.inject))
 		}
+		var sfs *schedFS
+		if p.Sched != nil {
+			sfs = newSchedFS(fs, p.Sched)
+			fs = sfs
+		}
 		r := NewRunner(&p, fs)
+		r.Ev.Trace = DebugTrace
+		if sfs != nil {
+			defer func() { r.C["sched-pauses"] += int(sfs.cnt.Load()) }()
+		}
 		if cr != nil {
 			cr.r = r
 			r.crash = cr
